@@ -42,8 +42,11 @@ static int	g_mr[2], g_mr_bad, g_run_events, g_timer_reads, g_waits;
 
 long verif_syscall(long nr, long a, long b) { return -1; }
 
+static int g_mr_after_events;
 void iv_fd_make_ready(struct iv_list_head *active, struct iv_fd_ *fd, int bands)
 {
+	if (g_run_events)
+		g_mr_after_events++;
 	if (active != &v_active || (bands != MASKIN && bands != MASKOUT && bands != MASKERR))
 		g_mr_bad++;
 	else if (fd == &v_fd[0])
@@ -168,6 +171,7 @@ static void check_common(int r, int expect_ret)
 	__CPROVER_assert(g_mr_bad == 0, "[C03] only real descriptors are made ready, one band at a time, on the caller's batch (the kick and timer entries are never treated as descriptors)");
 	__CPROVER_assert(g_mr[0] == exp[0] && g_mr[1] == exp[1], "[C03,C02] ready bands are exactly the bands of the kernel-reported events: IN|ERR|HUP->in, OUT|ERR|HUP->out, ERR|HUP->err; unreported descriptors are not touched");
 	__CPROVER_assert(g_run_events == (kicks ? 1 : 0), "[C08] pending cross-thread events are run iff the kick entry was reported");
+	__CPROVER_assert(g_mr_after_events == 0, "[C01,C03,C18] cross-thread event handlers are run only after every entry of the kernel's batch has been handed over: such a handler may unregister (and free, or re-use) any descriptor, so no batch entry may be looked at after it");
 	__CPROVER_assert(g_timer_reads == timers, "[C04] the timer descriptor is drained when it fired");
 	__CPROVER_assert(r == expect_ret || (timers && r == 1), "[C04] verdict on re-running timers");
 }
